@@ -147,8 +147,14 @@ def exec_for(e: Engine, s: ast.For, st: State) -> List[Outcome]:
     check_invariants(e, spec, st, I(0), space, pre_loop, tag, "entry")
     # 2. havoc
     names = assigned_names(s.body) | mutated_args(e, s.body)
+    inner_labels = set()
+    for bst in s.body:
+        for x in ast.walk(bst):
+            lab = getattr(e, "stmt_labels", {}).get(id(x))
+            if lab:
+                inner_labels.add("after:" + lab)
     for g in e.reg.ghost.get(e.fn.qname, []):
-        if g.anchor.startswith(tag + ":"):
+        if g.anchor.startswith(tag + ":") or g.anchor in inner_labels:
             for gn in ast.walk(ast.parse(g.code)):
                 if isinstance(gn, ast.Assign):
                     for t in gn.targets:
@@ -204,6 +210,8 @@ def run_ghost(e: Engine, st: State, anchor: str, k=None):
 def run_ghost_code(e: Engine, st: State, code: str, k=None):
     tree = ast.parse(code)
     saved = (e.spec_mode, e.pending_raises, e.guards)
+    old_saved = getattr(e, "_old_state", None)
+    e._old_state = e.entry
     defs_saved = getattr(e, "_extra_defs", {})
     env_defs = {}
     for dn, dsrc in list((e.contract.defs if e.contract else {}).items()):
@@ -246,6 +254,7 @@ def run_ghost_code(e: Engine, st: State, code: str, k=None):
                 raise Unsupported("ghost statement")
     finally:
         e.spec_mode, e.pending_raises, e.guards = saved
+        e._old_state = old_saved
         new_ghost = {k2: v for k2, v in st.store.items() if k2.startswith("ghost.")}
         st.store = store_saved
         st.store.update(new_ghost)
